@@ -282,11 +282,12 @@ func NewFieldOpNode(op string, field string, caseSensitive bool, values [][]byte
 			if !caseSensitive && curVal != nil {
 				curVal = bytes.ToLower(curVal)
 			}
-			if len(values[i]) < minValLen {
-				minValLen = len(values[i])
+			// lengths of the values as they are compared (lower-casing can change the byte length)
+			if i == 0 || len(curVal) < minValLen {
+				minValLen = len(curVal)
 			}
-			if len(values[i]) > maxValLen {
-				maxValLen = len(values[i])
+			if i == 0 || len(curVal) > maxValLen {
+				maxValLen = len(curVal)
 			}
 			if fop == fieldEqualOp {
 				valsBySize[len(curVal)] = append(valsBySize[len(curVal)], curVal)
@@ -326,6 +327,10 @@ func (n *fieldOpNode) Check(data Data) bool {
 		// array and object values are considered as not matched
 		return false
 	}
+	// lower-casing can change the byte length, so it goes before every length based shortcut
+	if !n.caseSensitive && n.op != fieldRegexOp && eventData != nil {
+		eventData = bytes.ToLower(eventData)
+	}
 	// fast check for data
 	if n.op != fieldRegexOp && n.op != fieldContainsAnyOp &&
 		len(eventData) < n.minValLen {
@@ -336,9 +341,6 @@ func (n *fieldOpNode) Check(data Data) bool {
 		vals, ok := n.valuesBySize[len(eventData)]
 		if !ok {
 			return false
-		}
-		if !n.caseSensitive && eventData != nil {
-			eventData = bytes.ToLower(eventData)
 		}
 		for _, val := range vals {
 			// null and empty strings are considered as different values
@@ -351,26 +353,17 @@ func (n *fieldOpNode) Check(data Data) bool {
 			}
 		}
 	case fieldContainsOp:
-		if !n.caseSensitive {
-			eventData = bytes.ToLower(eventData)
-		}
 		for _, val := range n.values {
 			if bytes.Contains(eventData, val) {
 				return true
 			}
 		}
 	case fieldContainsAnyOp:
-		if !n.caseSensitive {
-			eventData = bytes.ToLower(eventData)
-		}
 		return bytes.ContainsAny(eventData, string(n.values[0]))
 	case fieldPrefixOp:
 		// check only necessary amount of bytes
 		if len(eventData) > n.maxValLen {
 			eventData = eventData[:n.maxValLen]
-		}
-		if !n.caseSensitive {
-			eventData = bytes.ToLower(eventData)
 		}
 		for _, val := range n.values {
 			if bytes.HasPrefix(eventData, val) {
@@ -381,9 +374,6 @@ func (n *fieldOpNode) Check(data Data) bool {
 		// check only necessary amount of bytes
 		if len(eventData) > n.maxValLen {
 			eventData = eventData[len(eventData)-n.maxValLen:]
-		}
-		if !n.caseSensitive {
-			eventData = bytes.ToLower(eventData)
 		}
 		for _, val := range n.values {
 			if bytes.HasSuffix(eventData, val) {
